@@ -1,7 +1,10 @@
 package c02
 
 import (
+	"bytes"
 	"testing"
+
+	"github.com/parquet-go/parquet-go"
 
 	"pgregory.net/rapid"
 
@@ -18,6 +21,9 @@ type Case struct {
 	Plan   gen.RowPlan    `json:"plan"`
 	Opts   gen.WriterOpts `json:"opts"`
 	Ops    []gen.Op       `json:"ops"`
+	Path   string         `json:"path,omitempty"`    // "" WriteRows | "WriteRowGroup(file)" | "WriteRowGroup(buffer)"
+	Src    gen.WriterOpts `json:"srcopts"`           // options of the intermediate file of the WriteRowGroup(file) path
+	BigDic int            `json:"bigdict,omitempty"` // >0: that many extra rows with distinct values (dictionary indexes above 16 bits)
 }
 
 func genCase(t *rapid.T) Case {
@@ -29,7 +35,58 @@ func genCase(t *rapid.T) Case {
 	c.Plan.Uniq = rapid.IntRange(0, 2).Draw(t, "uniq") == 0
 	c.Opts = gen.WriterOptions(t, cols, gen.OptsBias{SmallPages: rapid.Bool().Draw(t, "small"), EncFor: pq.ValidEncodings})
 	c.Ops = gen.WriteOps(t, c.Plan.NumRows())
+	c.Path = []string{"", "", "", "WriteRowGroup(file)", "WriteRowGroup(buffer)"}[rapid.IntRange(0, 4).Draw(t, "path")]
+	c.Src = gen.WriterOptions(t, cols, gen.OptsBias{SmallPages: rapid.Bool().Draw(t, "srcsmall"), NoBloom: true, EncFor: pq.ValidEncodings})
+	c.Src.Pool = ""
+	if rapid.IntRange(0, 39).Draw(t, "bigdict") == 7 {
+		// one row group, a dictionary above 65536 entries: RLE_DICTIONARY indexes wider than 16 bits
+		c.BigDic = 66000 + rapid.IntRange(0, 3000).Draw(t, "bigdictn")
+		c.Schema = ref.Node{Name: "root", Rep: "req", Kind: "group", Children: []ref.Node{
+			{Name: "c0", Rep: "req", Kind: "leaf", Leaf: []string{"int64", "string", "int32"}[rapid.IntRange(0, 2).Draw(t, "bdleaf")], Enc: "dict"},
+			{Name: "c1", Rep: "opt", Kind: "leaf", Leaf: "int32"},
+		}}
+		c.Plan = gen.RowPlan{Pool: []ref.V{{F: []ref.V{{I: 1, B: []byte("v")}, {I: 7}}}}, Runs: [][2]int{{0, c.BigDic}}, Uniq: true}
+		c.Opts.MaxRows, c.Opts.DictMax, c.Opts.PageBuf, c.Opts.Bloom, c.Ops, c.Path = 0, 0, 0, nil, nil, ""
+		c.Opts.SkipBounds, c.Opts.SkipStats = nil, nil
+	}
 	return c
+}
+
+// produce writes the rows through the case's path.
+func produce(c Case, cols []ref.Column, rows []ref.V) ([]byte, error) {
+	if c.Path == "" {
+		return pq.WriteFile(&c.Schema, cols, rows, c.Opts, c.Ops)
+	}
+	schema := pq.BuildSchema(&c.Schema)
+	var rgs []parquet.RowGroup
+	if c.Path == "WriteRowGroup(file)" {
+		src, err := pq.WriteFile(&c.Schema, cols, rows, c.Src, c.Ops)
+		if err != nil {
+			return nil, err
+		}
+		f, err := pq.Open(src)
+		if err != nil {
+			return nil, err
+		}
+		rgs = f.RowGroups()
+	} else {
+		b := parquet.NewBuffer(schema)
+		if _, err := b.WriteRows(pq.Rows(&c.Schema, cols, rows)); err != nil {
+			return nil, err
+		}
+		rgs = []parquet.RowGroup{b}
+	}
+	var out bytes.Buffer
+	w := parquet.NewWriter(&out, append([]parquet.WriterOption{schema}, pq.Options(c.Opts, cols, "")...)...)
+	for _, rg := range rgs {
+		if _, err := w.WriteRowGroup(rg); err != nil {
+			return nil, err
+		}
+	}
+	if err := w.Close(); err != nil {
+		return nil, err
+	}
+	return out.Bytes(), nil
 }
 
 func codecsOf(root *ref.Node, cols []ref.Column, o gen.WriterOpts) []int {
@@ -47,13 +104,20 @@ func codecsOf(root *ref.Node, cols []ref.Column, o gen.WriterOpts) []int {
 func runCase(c Case, o *kit.Obs) *kit.Failure {
 	cols := ref.Columns(&c.Schema)
 	rows := c.Plan.ExpandWith(&c.Schema)
-	data, err := pq.WriteFile(&c.Schema, cols, rows, c.Opts, c.Ops)
+	data, err := produce(c, cols, rows)
 	if err != nil {
 		o.Rejected()
 		o.Class("write-error")
 		return nil
 	}
-	info, is := Verify(data, Expect{Cols: cols, Streams: ref.ShredRows(&c.Schema, rows), Opts: &c.Opts, Codecs: codecsOf(&c.Schema, cols, c.Opts), MaxRows: c.Opts.MaxRows})
+	ex := Expect{Cols: cols, Streams: ref.ShredRows(&c.Schema, rows), Opts: &c.Opts, Codecs: codecsOf(&c.Schema, cols, c.Opts), MaxRows: c.Opts.MaxRows}
+	if c.Path != "" {
+		// a copied chunk may keep the source's codec, and row groups arrive as the source cut them
+		ex.Codecs, ex.MaxRows = nil, 0
+		o.Class("path-" + c.Path)
+	}
+	o.ClassIf(c.BigDic > 0, "dictionary-above-65536")
+	info, is := Verify(data, ex)
 	if is != nil {
 		return kit.Failf("c02/"+is.Rule, "%s", is.Msg)
 	}
